@@ -1,0 +1,327 @@
+//go:build verif
+
+// JSON writers of package geojson: panic freedom (C05: "JSON" is one of the query methods) under the invariant of `extra`
+// (extra coordinate values: dims per position; members: "" or a JSON object text of at least "{}").
+
+package geojson
+
+// (stated per position, so that no monotonicity of multiplication is needed: position k owns values[k*dims .. k*dims+dims))
+//@ spec func owns(ex *extra, a int, b int) bool opaque { forall k int :: (a <= k && k < b) ==> k*ex.dims + ex.dims <= len(ex.values) }
+//@ spec func extraOK(ex *extra, n int) bool { ex == nil || ((len(ex.members) == 0 || len(ex.members) >= 2) && ex.dims >= 0 && owns(ex, 0, n)) }
+//@ lemma ownsSub(ex *extra, a int, b int, c int, d int)
+//@   props C05 C17
+//@   requires owns(ex, a, b) && a <= c && d <= b
+//@   ensures owns(ex, c, d)
+//@ lemma ownsAt(ex *extra, a int, b int, k int)
+//@   props C05 C17
+//@   requires owns(ex, a, b) && a <= k && k < b
+//@   ensures k*ex.dims + ex.dims <= len(ex.values)
+
+//@ extern strconv.AppendFloat
+
+//@ func appendJSONFloat
+//@   props C05 C17
+//@   arith order
+
+//@ func appendJSONPoint
+//@   props C05 C17
+//@   arith order
+//@   requires ex != nil ==> (idx >= 0 && ex.dims >= 0 && idx*ex.dims + ex.dims <= len(ex.values))
+//@   loop 0 invariant 0 <= i && i <= dims && dims == ex.dims
+//@   loop 0 decreases dims - i
+
+//@ func extra.appendJSONExtra
+//@   props C05 C17
+//@   arith order
+//@   requires ex != nil ==> (len(ex.members) == 0 || len(ex.members) >= 2)
+
+//@ func appendJSONSeries
+//@   props C05 C17
+//@   arith order
+//@   requires geometry.SeriesInv(series)
+//@   requires ex != nil ==> (pidx >= 0 && ex.dims >= 0 && owns(ex, pidx, pidx + geometry.sNpts(series)))
+//@   loop 0 begin use ownsAt(ex, old(pidx), old(pidx) + geometry.sNpts(series), pidx)
+//@   ensures npidx == pidx + geometry.sNpts(series)
+//@   loop 0 invariant 0 <= i && i <= nPoints && nPoints == geometry.sNpts(series) && pidx == old(pidx) + i
+//@   loop 0 decreases nPoints - i
+
+// total number of positions of a polygon (exterior + holes)
+//@ spec func polyNptsS(P *geometry.Poly) int { ite(geometry.polyEmptyS(P), 0, geometry.sNpts(geometry.polyExt(P)) + polyHolesNpts(P, geometry.polyNHoles(P))) }
+
+//@ func Point.AppendJSON
+//@   props C05 C17
+//@   arith order
+//@   requires g != nil && extraOK(g.extra, 1)
+//@ func SimplePoint.AppendJSON
+//@   props C05 C17
+//@   arith order
+//@   requires g != nil
+//@ lemma holesNptsMono(P *geometry.Poly, i int, n int)
+//@   props C05 C17
+//@   requires polyShapeS(P) && 0 <= i && i <= n && n <= geometry.polyNHoles(P)
+//@   ensures polyHolesNpts(P, i) <= polyHolesNpts(P, n)
+//@   induction n
+//@   use polyHoleShape(P, n-1)
+//@ lemma polyHoleShape(P *geometry.Poly, h int)
+//@   props C05 C17
+//@   requires polyShapeS(P) && 0 <= h && h < geometry.polyNHoles(P)
+//@   ensures geometry.polyHole(P,h) != nil && geometry.SeriesInv(geometry.polyHole(P,h)) && geometry.sNpts(geometry.polyHole(P,h)) >= 0
+//@ lemma polyExtShape(P *geometry.Poly)
+//@   props C05 C17
+//@   requires polyShapeS(P) && geometry.polyExt(P) != nil
+//@   ensures geometry.SeriesInv(geometry.polyExt(P)) && geometry.sNpts(geometry.polyExt(P)) >= 0
+//@ func Polygon.AppendJSON
+//@   props C05 C17
+//@   arith order
+//@   unfold 2
+//@   requires g != nil && ObjShape(g) && extraOK(g.extra, polyNptsS(polyOf(g)))
+//@   entry use forall h int :: polyHoleShape(polyOf(g), h)
+//@   entry use holesNptsMono(polyOf(g), 0, geometry.polyNHoles(polyOf(g)))
+//@   stmt polygon.go:"dst, pidx = appendJSONSeries(dst, g.base.Exterior" assert NotEmpty: !geometry.polyEmptyS(polyOf(g))
+//@   stmt polygon.go:"dst, pidx = appendJSONSeries(dst, g.base.Exterior" assert Total: polyNptsS(polyOf(g)) == geometry.sNpts(geometry.polyExt(polyOf(g))) + polyHolesNpts(polyOf(g), geometry.polyNHoles(polyOf(g))) && polyHolesNpts(polyOf(g), geometry.polyNHoles(polyOf(g))) >= 0
+//@   stmt polygon.go:"dst, pidx = appendJSONSeries(dst, g.base.Exterior" use ownsSub(g.extra, 0, polyNptsS(polyOf(g)), 0, geometry.sNpts(geometry.polyExt(polyOf(g))))
+//@   stmt polygon.go:"dst, pidx = appendJSONSeries(dst, g.base.Exterior" assert OwnsExt: g.extra != nil ==> owns(g.extra, 0, geometry.sNpts(geometry.polyExt(polyOf(g))))
+//@   loop 0 invariant pidx == geometry.sNpts(geometry.polyExt(polyOf(g))) + polyHolesNpts(polyOf(g), $i) && !geometry.polyEmptyS(polyOf(g))
+//@   loop 0 begin use forall h int :: polyHoleShape(polyOf(g), h)
+//@   loop 0 begin use holesNptsMono(polyOf(g), $i+1, geometry.polyNHoles(polyOf(g)))
+//@   loop 0 begin use holesNptsStep(polyOf(g), $i+1)
+//@   loop 0 assert geometry.polyHole(polyOf(g), $i) == hole
+//@   loop 0 begin use holesNptsMono(polyOf(g), 0, $i)
+//@   loop 0 begin use polyExtShape(polyOf(g))
+//@   loop 0 assert Total: polyNptsS(polyOf(g)) == geometry.sNpts(geometry.polyExt(polyOf(g))) + polyHolesNpts(polyOf(g), geometry.polyNHoles(polyOf(g)))
+//@   loop 0 assert NN: geometry.sNpts(geometry.polyExt(polyOf(g))) >= 0 && polyHolesNpts(polyOf(g), $i) >= 0
+//@   loop 0 assert Mono: polyHolesNpts(polyOf(g), $i+1) <= polyHolesNpts(polyOf(g), geometry.polyNHoles(polyOf(g)))
+//@   loop 0 assert Next: pidx + geometry.sNpts(hole) == geometry.sNpts(geometry.polyExt(polyOf(g))) + polyHolesNpts(polyOf(g), $i+1)
+//@   loop 0 assert Below: pidx + geometry.sNpts(hole) <= polyNptsS(polyOf(g)) && pidx >= 0
+//@   loop 0 begin use ownsSub(g.extra, 0, polyNptsS(polyOf(g)), pidx, pidx + geometry.sNpts(geometry.polyHole(polyOf(g), $i)))
+//@   loop 0 assert OwnsHole: g.extra != nil ==> owns(g.extra, pidx, pidx + geometry.sNpts(hole))
+
+// ---------------------------------------------------------------- what the writers need of an object, by kind
+// (a LineString is NOT covered: its writer hands &g.base (a *Line) to appendJSONSeries as a Series, a third implementer that the
+// Series model of package geometry does not describe; WriteInv is false for it, so collections holding one are outside these proofs)
+//@ spec func collWriteUpTo(c *collection, k int) bool rec { k <= 0 || (collWriteUpTo(c,k-1) && WriteInv(collChild(c,k-1))) }
+//@ spec func WriteInv(o Object) bool rec {
+//@     o != nil &&
+//@     ite(isPointK(o), extraOK(as(o,*Point).extra, 1),
+//@     ite(isSimplePointK(o) || isRectK(o) || isCircleK(o), true,
+//@     ite(isPolygonK(o), polyShapeS(polyOf(o)) && extraOK(as(o,*Polygon).extra, polyNptsS(polyOf(o))),
+//@     ite(isFeatureK(o), ftBase(o) != nil && WriteInv(ftBase(o)) && extraOK(as(o,*Feature).extra, 0),
+//@     ite(isCollObjK(o) && !isCollK(o), collOf(o) != nil && collWriteUpTo(collOf(o), collN(collOf(o))) && extraOK(collOf(o).extra, 0),
+//@         false))))) }
+//@ lemma collWriteAt(c *collection, i int, k int)
+//@   props C05 C17
+//@   requires collWriteUpTo(c, k) && 0 <= i && i < k
+//@   ensures WriteInv(collChild(c, i))
+//@   induction k
+
+//@ func Object.AppendJSON
+//@   props C05 C17
+//@   requires WriteInv(self)
+
+//@ func Circle.AppendJSON
+//@   props C05 C17
+//@   arith order
+//@   requires g != nil
+//@ lemma rectPolyWrite(o Object, r geometry.Rect)
+//@   props C05 C17
+//@   requires isPolygonK(o) && isRectPolyS(polyOf(o), r) && as(o,*Polygon).extra == nil
+//@   ensures WriteInv(o)
+//@ func Rect.AppendJSON
+//@   props C05 C17
+//@   arith order
+//@   requires g != nil
+//@   stmt rect.go:"return g.Polygon().AppendJSON(dst)" use forall o Object :: rectPolyWrite(o, g.base)
+//@ func Feature.AppendJSON
+//@   props C05 C17
+//@   arith order
+//@   unfold 2
+//@   requires g != nil && WriteInv(g)
+//@ func GeometryCollection.AppendJSON
+//@   props C05 C17
+//@   arith order
+//@   unfold 2
+//@   requires g != nil && WriteInv(g)
+//@   loop 0 invariant 0 <= i
+//@   loop 0 decreases len(g.collection.children) - i
+//@   loop 0 begin use collWriteAt(g.collection, i, collN(g.collection))
+//@   loop 0 assert collChild(g.collection, i) == g.collection.children[i] && WriteInv(collChild(g.collection, i))
+//@ func FeatureCollection.AppendJSON
+//@   props C05 C17
+//@   arith order
+//@   unfold 2
+//@   requires g != nil && WriteInv(g)
+//@   loop 0 invariant 0 <= i
+//@   loop 0 decreases len(g.collection.children) - i
+//@   loop 0 begin use collWriteAt(g.collection, i, collN(g.collection))
+//@   loop 0 assert collChild(g.collection, i) == g.collection.children[i] && WriteInv(collChild(g.collection, i))
+//@ func MultiPoint.AppendJSON
+//@   props C05 C17
+//@   arith order
+//@   unfold 2
+//@   requires g != nil && WriteInv(g)
+//@   loop 0 begin use collWriteAt(g.collection, $i, collN(g.collection))
+//@ func MultiPolygon.AppendJSON
+//@   props C05 C17
+//@   arith order
+//@   unfold 2
+//@   requires g != nil && WriteInv(g)
+//@   loop 0 begin use collWriteAt(g.collection, $i, collN(g.collection))
+//@ lemma writeInvColl(o Object)
+//@   props C05 C17
+//@   requires isCollObjK(o) && !isCollK(o) && WriteInv(o)
+//@   ensures collOf(o) != nil && collWriteUpTo(collOf(o), collN(collOf(o))) && extraOK(collOf(o).extra, 0)
+//@ lemma writeInvFeature(o Object)
+//@   props C05 C17
+//@   requires isFeatureK(o) && WriteInv(o)
+//@   ensures ftBase(o) != nil && WriteInv(ftBase(o)) && extraOK(as(o,*Feature).extra, 0)
+
+// ---- JSON() / String() / MarshalJSON(): AppendJSON(nil) converted
+//@ func Point.JSON
+//@   props C05 C17
+//@   arith order
+//@   requires g != nil && extraOK(g.extra, 1)
+//@ func Point.String
+//@   props C05 C17
+//@   arith order
+//@   requires g != nil && extraOK(g.extra, 1)
+//@ func Point.MarshalJSON
+//@   props C05 C17
+//@   arith order
+//@   requires g != nil && extraOK(g.extra, 1)
+//@ func SimplePoint.JSON
+//@   props C05 C17
+//@   arith order
+//@   requires g != nil
+//@ func SimplePoint.String
+//@   props C05 C17
+//@   arith order
+//@   requires g != nil
+//@ func SimplePoint.MarshalJSON
+//@   props C05 C17
+//@   arith order
+//@   requires g != nil
+//@ func Polygon.JSON
+//@   props C05 C17
+//@   arith order
+//@   requires g != nil && ObjShape(g) && extraOK(g.extra, polyNptsS(polyOf(g)))
+//@ func Polygon.String
+//@   props C05 C17
+//@   arith order
+//@   requires g != nil && ObjShape(g) && extraOK(g.extra, polyNptsS(polyOf(g)))
+//@ func Polygon.MarshalJSON
+//@   props C05 C17
+//@   arith order
+//@   requires g != nil && ObjShape(g) && extraOK(g.extra, polyNptsS(polyOf(g)))
+//@ func Rect.JSON
+//@   props C05 C17
+//@   arith order
+//@   requires g != nil
+//@ func Rect.String
+//@   props C05 C17
+//@   arith order
+//@   requires g != nil
+//@ func Rect.MarshalJSON
+//@   props C05 C17
+//@   arith order
+//@   requires g != nil
+//@ func Circle.JSON
+//@   props C05 C17
+//@   arith order
+//@   requires g != nil
+//@ func Circle.String
+//@   props C05 C17
+//@   arith order
+//@   requires g != nil
+//@ func Circle.MarshalJSON
+//@   props C05 C17
+//@   arith order
+//@   requires g != nil
+//@ func Feature.JSON
+//@   props C05 C17
+//@   arith order
+//@   requires g != nil && WriteInv(g)
+//@ func Feature.String
+//@   props C05 C17
+//@   arith order
+//@   requires g != nil && WriteInv(g)
+//@ func Feature.MarshalJSON
+//@   props C05 C17
+//@   arith order
+//@   requires g != nil && WriteInv(g)
+//@ func GeometryCollection.JSON
+//@   props C05 C17
+//@   arith order
+//@   requires g != nil && WriteInv(g)
+//@ func GeometryCollection.String
+//@   props C05 C17
+//@   arith order
+//@   requires g != nil && WriteInv(g)
+//@ func GeometryCollection.MarshalJSON
+//@   props C05 C17
+//@   arith order
+//@   requires g != nil && WriteInv(g)
+//@ func FeatureCollection.JSON
+//@   props C05 C17
+//@   arith order
+//@   requires g != nil && WriteInv(g)
+//@ func FeatureCollection.String
+//@   props C05 C17
+//@   arith order
+//@   requires g != nil && WriteInv(g)
+//@ func FeatureCollection.MarshalJSON
+//@   props C05 C17
+//@   arith order
+//@   requires g != nil && WriteInv(g)
+//@ func MultiPoint.JSON
+//@   props C05 C17
+//@   arith order
+//@   requires g != nil && WriteInv(g)
+//@ func MultiPoint.String
+//@   props C05 C17
+//@   arith order
+//@   requires g != nil && WriteInv(g)
+//@ func MultiPoint.MarshalJSON
+//@   props C05 C17
+//@   arith order
+//@   requires g != nil && WriteInv(g)
+//@ func MultiPolygon.JSON
+//@   props C05 C17
+//@   arith order
+//@   requires g != nil && WriteInv(g)
+//@ func MultiPolygon.String
+//@   props C05 C17
+//@   arith order
+//@   requires g != nil && WriteInv(g)
+//@ func MultiPolygon.MarshalJSON
+//@   props C05 C17
+//@   arith order
+//@   requires g != nil && WriteInv(g)
+
+// ---- who establishes WriteInv: the constructors (and the Point parser, whose coordinate decoding is under contract)
+//@ lemma ownsOne(ex *extra)
+//@   props C05 C17
+//@   requires ex.dims == 1 && len(ex.values) >= 1
+//@   ensures owns(ex, 0, 1)
+//@ func NewPointZ
+//@   props C05 C17
+//@   arith order
+//@   unfold 2
+//@   ret use forall e *extra :: ownsOne(e)
+//@   ret have M: len(result.extra.members) == 0
+//@   ret have D: result.extra.dims == 1 && len(result.extra.values) == 1
+//@   ret have O: owns(result.extra, 0, 1)
+//@   ret have K: isPointK(result)
+//@   ensures result != nil && !old($alloc)[result] && result.base == point
+//@   ensures W: WriteInv(result)
+//@ lemma writeNewPoint(o Object)
+//@   props C05 C17
+//@   requires isPointK(o) && as(o,*Point).extra == nil
+//@   ensures WriteInv(o)
+//@ lemma writeSimple(o Object)
+//@   props C05 C17
+//@   requires isSimplePointK(o) || isRectK(o) || isCircleK(o)
+//@   ensures WriteInv(o)
+//@ lemma writePolygonNoExtra(o Object)
+//@   props C05 C17
+//@   requires isPolygonK(o) && polyShapeS(polyOf(o)) && as(o,*Polygon).extra == nil
+//@   ensures WriteInv(o)
